@@ -95,6 +95,8 @@ SITES = {
     'map_err_fmt': r'\.\s*map_err\s*\(',
     'map_err_opaque': r'\.\s*map_err\s*\(',
     'ok_or_else': r'\.\s*ok_or_else\s*\(',
+    'unwrap_or_ref': r'\.\s*unwrap_or\s*\(',
+    'find_next': r'\)\s*\.\s*find\s*\(',
     'map_or': r'\.\s*map_or\s*\(',
     'any_next': r'\)\s*\.\s*any\s*\(',
     'format_opaque': r'(?<![\w:])format!\s*\(',
@@ -210,6 +212,13 @@ def apply(text, args):
         recv = text[rstart:s]
         new = '(match %s { Ok(__t4_v) => Ok(__t4_v), Err(_) => Err(vp_opaque_error()) })' % (recv.strip(),)
         return text[:rstart] + new + text[close + 1:], 'map_err_opaque #%d: `%s`.map_err(%s)' % (k, rs.norm_ws(recv)[:60], rs.norm_ws(text[e:close])[:60])
+    if kind == 'unwrap_or_ref':
+        # X.unwrap_or(D)  ==>  match X { Some(v) => v, None => D }   (vstd's spec of unwrap_or is for owned values)
+        close = rs.match_close(text, m, e - 1)
+        rstart = _receiver_start(text, m, s)
+        recv = text[rstart:s]
+        new = '(match %s { Some(__t4_v) => __t4_v, None => %s })' % (recv.strip(), text[e:close].strip())
+        return text[:rstart] + new + text[close + 1:], 'unwrap_or #%d: `%s`.unwrap_or(..)' % (k, rs.norm_ws(recv)[:60])
     if kind == 'map_or':
         # X.map_or(D, |p| B)  ==>  match X { Some(p) => B, None => D }
         close = rs.match_close(text, m, e - 1)
@@ -233,6 +242,19 @@ def apply(text, args):
     if kind == 'format_opaque':
         close = rs.match_close(text, m, e - 1)
         return text[:s] + 'vp_auth::opaque_error_message()' + text[close + 1:], 'format_opaque #%d: format!(..) error message replaced by an opaque String' % k
+    if kind == 'find_next':
+        # RECV.find(|x| P) on an iterator value: `while let Some(x) = it.next() { if P { return Some(x) } } None`
+        s = s + 1
+        dot = s + text[s:].index('.')
+        rstart = _receiver_start(text, m, dot)
+        recv = text[rstart:dot]
+        pat, body, close = _closure(text, m, e - 1)
+        new = ('{ let mut __t4_it = %s; let mut __t4_found = None; let mut __t4_done: bool = false;\n'
+               'while __t4_found.is_none() && !__t4_done {\n'
+               'match __t4_it.next() { Some(__t4_x) => { let %s = &__t4_x; if (%s) { __t4_found = Some(__t4_x); } } None => { __t4_done = true; } }\n'
+               '}\n'
+               '__t4_found }') % (recv.strip(), pat, body)
+        return text[:rstart] + new + text[close + 1:], 'find_next #%d: `%s`.find(|%s| ..)' % (k, rs.norm_ws(re.sub('\x01T?\\d+\x01', '', recv)), pat)
     if kind == 'any_next':
         # RECV.any(|x| P) on an iterator value: std-documented loop `while let Some(x) = it.next() { if P { return true } } false`
         s = s + 1  # the regex starts at the ')' that ends the receiver
